@@ -67,6 +67,9 @@ SIG = {
     "xml_parse": (["bool", "int", "elem"],
                   "(let '(d, c) := Xml.xml_parse a0 a2 a1 in w_tree (Dict d) ++ sp ++ w_int c)"),
     "xml_populate": (["str", "tree"], "w_elem (Xml.populate a0 a1)"),
+    "xml_parse_doc": (["bool", "int", "list:opt:str", "list:str", "elem"],
+                      "(let '(d, c) := Xml.parse_doc a0 (combine a2 a3) a4 a1 in w_tree (Dict d) ++ sp ++ w_int c)"),
+    "xml_format_doc": (["kvs"], "w_opt (fun x : str * str * elem => let '(p, u, e) := x in w_str p ++ sp ++ w_str u ++ sp ++ w_elem e) (Xml.format_doc a0)"),
 }
 
 MAX_LINE = 6000          # characters of wire text (input + output) per sampled case
@@ -269,7 +272,7 @@ def conv(ty: str, r: Toks) -> str:
     raise ValueError(ty)
 
 
-COQTY = {"str": "str", "scalar": "scalar", "key": "key", "tree": "tree", "sdop": "sdop", "list:str": "(list str)"}
+COQTY = {"str": "str", "scalar": "scalar", "key": "key", "tree": "tree", "sdop": "sdop", "list:str": "(list str)", "opt:str": "(option str)"}
 
 
 def case_term(line: str, out: str) -> str:
